@@ -322,7 +322,7 @@ def string_units(draw):
     items = []
     for _ in range(draw(st.integers(2, 10))):
         pre = draw(st.sampled_from(["", "", "u8", "u", "U", "L"]))
-        chars = draw(st.sampled_from(["a", "b", "ab", "", "a"]))
+        chars = draw(st.sampled_from(["a", "b", "ab", "", "a", "a", "b", "q" * 15, "q" * 16, "q" * 31, "q" * 32, "q" * 63, "q" * 64, "q" * 64 + "a", "q" * 64 + "b", "q" * 70]))
         pad = draw(st.sampled_from([0, 0, 1, 2, 3, 5, 6, 7]))
         form = draw(st.sampled_from(["ret", "ret", "ptr", "idx"]))
         items.append([pre, chars, pad, form])
